@@ -1538,6 +1538,15 @@ def req_C12(r, tier):
             out.append(("ed.basepoint_table:single_digit", "ed.basepoint_table " + H(v)))
             out.append(("ris.table:single_digit", "ris.table " + H(v)))
     Bc = compress(B).hex()
+    # the identity constants of every backend as they are USED: accumulators and buckets initialised with the identity and added to before
+    # any doubling (Pippenger, n >= 190), next to the doubling-first algorithms (Straus, variable base)
+    for n in (2, 190):
+        ss_, ps_ = [H(1 + (i % 5)) for i in range(n)], [Bc] * n
+        out.append(("ed.msm_vt:identity_const:n=%d" % n, "ed.msm_vt %s %s" % (lst(ss_), lst(ps_))))
+        out.append(("ed.msm_ct:identity_const:n=%d" % n, "ed.msm_ct %s %s" % (lst(ss_), lst(ps_))))
+        for c in ("serial", "avx2", "ifma"):
+            out.append(("ed.direct.%s.pippenger:identity_const" % c, "ed.direct.%s.pippenger %s %s" % (c, lst(ss_), lst(ps_))))
+            out.append(("ed.direct.%s.straus_vt:identity_const" % c, "ed.direct.%s.straus_vt %s %s" % (c, lst(ss_), lst(ps_))))
     for d in range(1, 256, 2):
         for sign in (1, -1):
             b = (sign * d) % L
